@@ -28,8 +28,14 @@ type udpScenario struct {
 	Clients [][]udpOp `json:"clients"`
 }
 
+// dgramLen: datagram sizes from the smallest the accept filter can judge up to the receive MTU (8192),
+// among them sizes that fill a connection's ring buffer exactly (2046 + 2 = 2048, 4094 + 2 = 4096).
+func dgramLen(id int) int {
+	return []int{16, 8192, 17, 2046, 8191, 1472, 4094}[id%7]
+}
+
 func dgram(id, r int, admit bool) []byte {
-	p := make([]byte, 16+id%7)
+	p := make([]byte, dgramLen(id))
 	p[0], p[1], p[2], p[3] = byte(id), byte(id>>8), byte(id>>16), byte(id>>24)
 	if admit {
 		p[4] = 1
@@ -47,7 +53,7 @@ func dgramID(p []byte) (id, r int, ok bool) {
 		return -1, -1, false
 	}
 	id = int(p[0]) | int(p[1])<<8 | int(p[2])<<16 | int(p[3])<<24
-	if len(p) != 16+id%7 {
+	if id < 0 || len(p) != dgramLen(id) {
 		return id, int(p[5]), false
 	}
 	for i := 6; i < len(p); i++ {
@@ -171,7 +177,7 @@ func execUDP(t *testing.T, tr *vrt.Tracer, sc udpScenario, ex *vrt.Explorer) {
 							r["res"] = "fail"
 						}
 					case "read":
-						buf := make([]byte, 100)
+						buf := make([]byte, 9000)
 						n, err := conn.Read(buf)
 						switch {
 						case err != nil:
@@ -213,7 +219,7 @@ func execUDP(t *testing.T, tr *vrt.Tracer, sc udpScenario, ex *vrt.Explorer) {
 		}
 		emit(vrt.M{
 			"ev": "quiesce", "blocked": blocked, "sock": vrt.FakePortBound(lport), "leaked": pkgGoroutines(),
-			"sched": ex.Trail(),
+			"sched": ex.Trail(), "fine": vrt.IsFine(),
 		})
 		over = true
 		conns := append([]net.Conn(nil), allConns...)
@@ -262,6 +268,7 @@ func TestVerifUDPSync(t *testing.T) {
 	defer tr.Close()
 	budget := vrt.EnvInt("VERIF_BUDGET", 400)
 	nrand := vrt.EnvInt("VERIF_RANDOM", 200)
+	nfine := vrt.EnvInt("VERIF_FINE", nrand/2)
 	rng := rand.New(rand.NewSource(vrt.Seed())) //nolint:gosec
 	stats := map[string][3]int{}
 	vrt.ReadScenarios(func(line []byte) {
@@ -291,6 +298,16 @@ func TestVerifUDPSync(t *testing.T) {
 				rex.Begin()
 				execUDP(t, tr, sc, rex)
 			}
+		}
+		if len(sc.Clients) > 1 {
+			vrt.SetFine(true)
+			fex := &vrt.Explorer{Random: true, Rng: rng}
+			for k := 0; k < nfine; k++ {
+				fex.Begin()
+				execUDP(t, tr, sc, fex)
+				nr++
+			}
+			vrt.SetFine(false)
 		}
 		e := 0
 		if exhausted {
